@@ -342,8 +342,17 @@ fn embed_module_graphs(w: &mut RegWorld, v1: bool) {
     for v in p.versions.iter_mut() {
       let mut mg = serde_json::Map::new();
       for f in &v.files {
-        let src = render_imports(&f.imports);
         let u = url(&pkg_file_url(&p.name, &v.version, &f.path));
+        if f.path.ends_with(".wasm") {
+          // the registry analyses the declarations generated for the binary
+          if let Ok(dts) = deno_graph::source::wasm::wasm_module_to_dts(&file_bytes(f))
+            && let Ok(info) = analyzer.analyze_sync(&u, Arc::from(dts.as_str()), deno_graph::MediaType::Dmts)
+          {
+            mg.insert(f.path.clone(), serde_json::to_value(&info).unwrap());
+          }
+          continue;
+        }
+        let src = render_imports(&f.imports);
         if let Ok(info) = analyzer.analyze_sync(&u, Arc::from(src.as_str()), deno_graph::MediaType::TypeScript) {
           mg.insert(f.path.clone(), serde_json::to_value(&info).unwrap());
         }
@@ -364,6 +373,18 @@ fn graph_view(g: &ModuleGraph) -> Value {
   // nothing to normalise: the claim is identity of the serialised graph
   if let Some(o) = v.as_object_mut() {
     o.remove("roots");
+    // fields the serialisation skips: the declarations derived from Wasm
+    // modules and the bytes they were derived from
+    let wasm: serde_json::Map<String, Value> = g
+      .modules()
+      .filter_map(|m| match m {
+        deno_graph::Module::Wasm(w) => Some((w.specifier.to_string(), json!({"dts": w.source_dts.to_string(), "bytes": w.source.len()}))),
+        _ => None,
+      })
+      .collect();
+    if !wasm.is_empty() {
+      o.insert("wasm_modules".into(), Value::Object(wasm));
+    }
   }
   v
 }
@@ -376,17 +397,71 @@ fn shortcut(tier: Tier, seed: u64) -> Acc {
     plain.reload_only_versions.clear();
     plain.prefer_cached = false;
     plain.cached_manifests.clear();
+    // import attributes inside packages: a text import of a sibling code
+    // module (an asset: external, its own imports not followed) and a json
+    // assertion on a code module (an error), with and without the shortcut
+    let with_attrs = rng.chance(1, 3);
+    if with_attrs {
+      for p in plain.pkgs.iter_mut() {
+        for v in p.versions.iter_mut() {
+          if let Some(f) = v.files.iter_mut().find(|f| f.path == "/mod.ts") {
+            match rng.below(3) {
+              0 => f.imports.push(Imp::Text("./internal.ts".into())),
+              1 => f.imports.push(Imp::JsonAttr("./sub.ts".into())),
+              _ => {
+                f.imports.push(Imp::Text("./sub.ts".into()));
+                f.imports.push(Imp::JsonAttr("./internal.ts".into()));
+              }
+            }
+          }
+        }
+      }
+      acc.count("worlds_with_import_attributes_in_packages");
+    }
+    // a WebAssembly file inside the package (its declarations are derived
+    // from the bytes, also when the manifest embeds module info)
+    if rng.chance(1, 3) {
+      for p in plain.pkgs.iter_mut() {
+        for v in p.versions.iter_mut() {
+          v.files.push(RFile { path: "/calc.wasm".into(), imports: vec![Imp::Static("./internal.ts".into())] });
+          if let Some(f) = v.files.iter_mut().find(|f| f.path == "/mod.ts") {
+            f.imports.push(Imp::Static("./calc.wasm".into()));
+          }
+        }
+      }
+      acc.count("worlds_with_wasm_in_packages");
+    }
     let mut embedded = plain.clone();
     let v1 = rng.chance(1, 4);
     embed_module_graphs(&mut embedded, v1);
     let kind = *rng.pick(&[GraphKind::All, GraphKind::CodeOnly]);
     let ctx = json!({"world": plain.to_json(), "embedded_format": if v1 { "moduleGraph1" } else { "moduleGraph2" }, "kind": format!("{:?}", kind)});
     acc.eval();
-    let reference = match build_reg_world(&plain, kind, true) {
-      Ok((g, _)) => g,
-      Err(p) => {
-        acc.violation(format!("panic/{}", p.signature()), p.message.clone(), ctx);
-        return;
+    let reference = {
+      // same options as the compared builds
+      let world = plain.to_world();
+      let loader = ScriptedLoader::new(&world);
+      let mut graph = ModuleGraph::new(kind);
+      let cfg = BuildCfg {
+        kind,
+        npm: (!plain.no_npm_resolver).then(ScriptedNpmResolver::default),
+        version_resolver: Some(plain.version_resolver()),
+        unstable_text: true,
+        ..Default::default()
+      };
+      for (req, ver) in &plain.lock_selected {
+        let r = deno_semver::package::PackageReq::from_str(req).unwrap();
+        graph.packages.add_nv(
+          r.clone(),
+          deno_semver::package::PackageNv { name: r.name.clone(), version: deno_semver::Version::parse_standard(ver).unwrap() },
+        );
+      }
+      match catch(|| run_build(&mut graph, &plain.roots, &[], &loader, &cfg, None, Exec::Inline, None)) {
+        Ok(_) => graph,
+        Err(p) => {
+          acc.violation(format!("panic/{}", p.signature()), p.message.clone(), ctx);
+          return;
+        }
       }
     };
     let reference_view = graph_view(&reference);
@@ -399,7 +474,7 @@ fn shortcut(tier: Tier, seed: u64) -> Acc {
           for v in &p.versions {
             for f in &v.files {
               let u = pkg_file_url(&p.name, &v.version, &f.path);
-              world.add_cache(&u, Resp::text(&render_imports(&f.imports)));
+              world.add_cache(&u, Resp::Module { headers: vec![], content: file_bytes(f), final_spec: None });
             }
           }
         }
@@ -410,6 +485,7 @@ fn shortcut(tier: Tier, seed: u64) -> Acc {
         kind,
         npm: (!embedded.no_npm_resolver).then(ScriptedNpmResolver::default),
         version_resolver: Some(embedded.version_resolver()),
+        unstable_text: true,
         ..Default::default()
       };
       for (req, ver) in &embedded.lock_selected {
